@@ -88,6 +88,9 @@ func runC14(rc *RunCtx) {
 		ip := fmt.Sprintf("https://n%d.dom%d.example", a, a)
 		if rc.Chance(0.2) && i > 0 {
 			ip = fmt.Sprintf("https://n%d.dom%d.example", a, 2) // shares a domain with another eligible provider, not with P
+		} else if rc.Chance(0.25) {
+			ip = fmt.Sprintf("http://10.%d.%d.%d:3333", rc.Intn(200), a, 1+rc.Intn(250)) // reachable under a bare IPv4 address
+			rc.Count("providers_under_ipv4_literals", 1)
 		}
 		if r := s.InitProvider(a, ip); !r.OK() {
 			rc.Abort("provider: " + r.Log)
@@ -121,8 +124,35 @@ func runC14(rc *RunCtx) {
 	if npop > int(size) && rc.Chance(0.4) {
 		noProof = eligible[rc.Intn(len(eligible))]
 	}
+	// one eligible provider V holds its only proof on a third file H; H is deleted later, in the same block as (and
+	// between) two form requests: from then on V holds no proof and must never be named
+	vLoses := -1
+	var wH *WFile
+	if npop > int(size)+1 && rc.Chance(0.5) {
+		for _, a := range eligible {
+			if a != noProof {
+				vLoses = a
+				break
+			}
+		}
+	}
+	if vLoses >= 0 {
+		fH := gen.NewFile(randBytes(rc.Rng, int64(1+rc.Intn(3000))), 1024)
+		var rH chain.TxResult
+		if wH, rH = s.PostFile(0, fH, 2, 0, -1); !rH.OK() {
+			rc.Abort("post: " + rH.Log)
+			return
+		}
+	}
 	for _, a := range append(append([]int{}, eligible...), shared...) {
 		if a == noProof {
+			continue
+		}
+		if a == vLoses && wH != nil {
+			if pr := s.ProveHonest(a, wH); !pr.Success {
+				rc.Abort("provider cannot join H: " + pr.ErrMsg)
+				return
+			}
 			continue
 		}
 		if pr := s.ProveHonest(a, wG); !pr.Success {
@@ -134,6 +164,8 @@ func runC14(rc *RunCtx) {
 		return
 	}
 	pAddr := c.Accs[P].Bech
+	noProofAlso := -1
+	_ = noProofAlso
 
 	for _, kind := range []string{"attest", "report"} {
 		form := &c14Form{named: map[string]bool{}, signed: map[string]bool{}}
@@ -325,6 +357,20 @@ func runC14(rc *RunCtx) {
 					rc.Count("decoy_report_forms", 1)
 				}
 			}
+		}
+		if vLoses >= 0 && wH != nil && rc.Chance(0.6) {
+			// same block: a form request on the other file (any account may ask for a report form), then V's only file is
+			// deleted by its owner, then the form under test is requested
+			D := eligible[len(eligible)-1]
+			if D != vLoses && D != noProof {
+				c.DeliverAs(stranger, &storagetypes.MsgRequestReportForm{Creator: c.Accs[stranger].Bech, Prover: c.Accs[D].Bech, Merkle: fG.Root(), Owner: wG.OwnerAddr, Start: wG.Start})
+			}
+			if r := s.DeleteFile(0, wH); r.OK() {
+				rc.Logf("h=%d file H deleted: acc%d holds no proof any more", c.Height, vLoses)
+				rc.Count("provider_lost_its_last_proof_between_two_form_requests", 1)
+				noProofAlso = vLoses
+			}
+			wH = nil
 		}
 		if tmpl == 4 { // signatures before the form exists
 			sign(eligible[0], "before-form")
